@@ -22,6 +22,7 @@ import (
 	"strconv"
 	"strings"
 	"sync"
+	"sync/atomic"
 	"time"
 
 	"github.com/datastax/go-cassandra-native-protocol/client"
@@ -60,6 +61,7 @@ type Result struct {
 	Obs   []int64        `json:"obs"`
 	Viol  []Viol         `json:"viol"`
 	Panic string         `json:"panic,omitempty"`
+	Stall string         `json:"stall,omitempty"` // a call into the library did not return (watchdog)
 	Stats map[string]int `json:"stats"`
 }
 
@@ -157,9 +159,65 @@ type handle struct {
 	answered bool    // monitor: its final frame has arrived
 	finalOk  bool    // monitor: the final frame was handed over without error
 	dead     bool    // monitor: the request was failed (timeout, overflow, close) before that delivery
+	// timing histories only (harness clock, never the library's):
+	armStep  int       // step of the last event that (re)starts the read timeout: acceptance, or a page addressed to it
+	armBegin time.Time // when that step began (the library's own re-arm cannot be earlier)
+	armEnd   time.Time // when that step ended (nor later)
+	tainted  bool      // two such events were timeout/2 or more apart: "timeout-early" is not judged on this request
+	toSeen   bool      // its timeout error has been seen (and judged) already
 }
 
-func runCase(c Case, verbose bool) (res Result) {
+// the monitor's own book of accepted requests whose final frame has not arrived, per stream id in order of
+// acceptance. The code under study never lets a second one in (C09); if it does, the responses that follow on that
+// id answer the OLDEST of them first - that is the request the peer saw first.
+type shadowBook map[int][]*handle
+
+func (b shadowBook) count() int {
+	n := 0
+	for _, l := range b {
+		n += len(l)
+	}
+	return n
+}
+
+func (b shadowBook) oldest(id int) *handle {
+	if l := b[id]; len(l) > 0 {
+		return l[0]
+	}
+	return nil
+}
+
+func (b shadowBook) add(id int, h *handle) { b[id] = append(b[id], h) }
+
+func (b shadowBook) answer(id int) {
+	if l := b[id]; len(l) > 1 {
+		b[id] = l[1:]
+	} else {
+		delete(b, id)
+	}
+}
+
+// runCase runs one history; a timing history whose own clock readings show that the machine did not keep the
+// schedule (see `disturbed` below) is run again, at most three times in all.
+func runCase(c Case, verbose bool) Result {
+	var res Result
+	for attempt := 1; ; attempt++ {
+		res = runCaseOnce(c, verbose)
+		if res.Stats["timing-disturbed"] == 0 || attempt == 3 {
+			if attempt > 1 {
+				res.Stats["timing-reruns"] = attempt - 1
+			}
+			break
+		}
+	}
+	if res.Stats["timing-disturbed"] > 0 {
+		// three times off schedule: the model's clock says nothing about this run; the monitors still do
+		res.Case.NoModel = true
+	}
+	return res
+}
+
+func runCaseOnce(c Case, verbose bool) (res Result) {
 	res.Kind = "case"
 	res.Case = c
 	res.Stats = map[string]int{}
@@ -167,9 +225,12 @@ func runCase(c Case, verbose bool) (res Result) {
 	res.Case.Ops = rle(ops)
 	timeout := time.Hour
 	unit := time.Duration(c.UnitMs) * time.Millisecond
-	if c.UnitMs > 0 {
+	timing := c.UnitMs > 0
+	if timing {
 		timeout = time.Duration(c.T) * unit
 	}
+	progStep := prog.begin(&c)
+	defer func() { prog.end(&c, nil) }()
 	var h *client.VerifHandler
 	var conn *client.VerifConn
 	handledTags := []int64{}
@@ -182,7 +243,7 @@ func runCase(c Case, verbose bool) (res Result) {
 		h = client.VerifNewHandler(c.N, c.P, timeout)
 	}
 	var handles []*handle
-	shadow := map[int]*handle{} // monitor: accepted requests whose final frame has not arrived
+	shadow := shadowBook{} // monitor: accepted requests whose final frame has not arrived
 	closedSeen := false
 	step := -1
 	curCls := ""
@@ -192,14 +253,117 @@ func runCase(c Case, verbose bool) (res Result) {
 		}
 	}
 	obs := []int64{}
+	// ---- harness clock of a timing history
+	clock := int64(0)          // the model's clock after the current step (sum of the T arguments)
+	clockAt := map[int]int64{} // model clock after step i, for the steps that (re)arm some request
+	disturbed := func(format string, a ...interface{}) {
+		if res.Stats["timing-disturbed"] == 0 && verbose {
+			fmt.Fprintf(os.Stderr, "timing disturbed: "+format+"\n", a...)
+		}
+		res.Stats["timing-disturbed"]++
+	}
+	// The model and the code agree on a timing history as long as, for every request and every step c after the last
+	// event a that (re)armed its timer: fewer than T units on the model's clock <=> less than `timeout` of real time.
+	// The generator keeps the model side away from T (at most 0.3 T or at least 3 T); here the REAL side is checked with
+	// the harness's own clock: [begin of a, end of c] at most 0.8 timeouts, resp. [end of a, first read of c] at least
+	// 1.2 timeouts + 50 ms. A run that violates this was descheduled for too long; it proves nothing either way.
+	checkSchedule := func(hd *handle, cStep int, firstRead, end time.Time) {
+		if !timing || closedSeen {
+			return
+		}
+		me := clock - clockAt[hd.armStep]
+		if me < c.T {
+			if d := end.Sub(hd.armBegin); d > timeout*8/10 {
+				disturbed("steps %d..%d took %v on the harness clock, %d units (< T=%d) on the model's", hd.armStep, cStep, d, me, c.T)
+			}
+		} else {
+			if d := firstRead.Sub(hd.armEnd); d < timeout*12/10+50*time.Millisecond {
+				disturbed("steps %d..%d took only %v on the harness clock, %d units (>= T=%d) on the model's", hd.armStep, cStep, d, me, c.T)
+			}
+		}
+	}
+	arm := func(hd *handle, begin, end time.Time) {
+		if !timing {
+			return
+		}
+		if hd.armStep >= 0 && end.Sub(hd.armBegin) >= timeout/2 {
+			hd.tainted = true
+		}
+		hd.armStep, hd.armBegin, hd.armEnd = step, begin, end
+		clockAt[step] = clock
+	}
+	// C16 "not earlier while pages of its response keep arriving": a request seen failed with the timeout error less than
+	// timeout/2 (harness clock, from the BEGIN of the last step that delivered a page to it or sent it, to AFTER the
+	// read that saw the error) although every earlier gap between such steps was below timeout/2 as well. On a correct
+	// library the timer armed at or after that begin cannot have fired before a whole timeout has passed, and the timer it
+	// replaced had more than timeout/2 left when it was cancelled; load on the machine only makes the measured gaps longer.
+	judgeTimeouts := func() {
+		if !timing {
+			return
+		}
+		for i, hd := range handles {
+			if hd.toSeen || hd.armStep < 0 {
+				continue
+			}
+			st := client.VerifStateOf(hd.r)
+			if !st.Done {
+				continue
+			}
+			seenAt := time.Now()
+			hd.toSeen = true
+			if st.ErrClass != "timeout" || hd.tainted {
+				continue
+			}
+			if d := seenAt.Sub(hd.armBegin); d < timeout/2 {
+				viol("timeout-early", "request #%d (id %d) failed with the timeout error %v after step %d (%s) restarted its read timeout of %v; no two of its frames were %v or more apart (harness clock)",
+					i, hd.sid, d.Round(time.Millisecond), hd.armStep, ops[hd.armStep], timeout, timeout/2)
+			}
+		}
+	}
 	defer func() {
 		if p := recover(); p != nil {
-			res.Panic = fmt.Sprint(p)
-			res.Obs = append(obs, 99)
-			viol("panic", "panic: %v", p)
+			if se, ok := p.(stallError); ok {
+				// ---- the watchdog: a call into the library did not return
+				atomic.AddInt32(&stalledHistories, 1)
+				res.Stall = se.what
+				res.Case.NoModel = true // the model has no "never returns" outcome: this history is reported by the monitor alone
+				res.Obs = append(obs, 98)
+				res.Stats["stalled"]++
+				kind := "receiver-blocked"
+				switch ops[step][0] {
+				case 'M', 'X', 'S':
+					kind = "send-blocked"
+				case 'C':
+					kind = "close-hangs"
+				}
+				evq := ""
+				if conn != nil {
+					evq = fmt.Sprintf("; %d undrained EVENT frames in the events queue (capacity %d)", conn.EventsQueued(), c.N)
+				}
+				viol(kind, "%s did not return within %v at step %d (%s)%s", se.what, se.waited.Round(100*time.Millisecond), step, ops[step], evq)
+				if kind == "receiver-blocked" {
+					// the receive loop is ONE goroutine: every frame that the peer sends after this one waits behind it
+					stalledAt := step
+					for j := stalledAt + 1; j < len(ops); j++ {
+						if k := ops[j][0]; k == 'D' || k == 'L' {
+							id, _ := strconv.Atoi(ops[j][1:])
+							if t := shadow.oldest(id); t != nil && !client.VerifStateOf(t.r).Done {
+								step = j
+								viol("delivery-failed", "response frame for id %d (step %d, %s) is never delivered to live request #%d: the receive loop is blocked in step %d (%s)%s",
+									id, j, ops[j], indexOf(handles, t), stalledAt, ops[stalledAt], evq)
+							}
+						}
+					}
+					step = stalledAt
+				}
+			} else {
+				res.Panic = fmt.Sprint(p)
+				res.Obs = append(obs, 99)
+				viol("panic", "panic: %v", p)
+			}
 		}
-		// release timer goroutines
-		func() {
+		// release timer goroutines (and whatever the watchdog left behind, if closing helps it)
+		guardQuiet(func() {
 			defer func() { _ = recover() }()
 			if conn != nil {
 				_ = conn.Close()
@@ -207,10 +371,11 @@ func runCase(c Case, verbose bool) (res Result) {
 				h.Close()
 				h.CancelContext()
 			}
-		}()
+		})
 	}()
 	for i, o := range ops {
 		step = i
+		atomic.StoreInt32(progStep, int32(i))
 		curCls = ""
 		kind := o[0]
 		arg := 0
@@ -218,6 +383,8 @@ func runCase(c Case, verbose bool) (res Result) {
 			arg, _ = strconv.Atoi(o[1:])
 		}
 		var stepObs []int64
+		stepBegin := time.Now()
+		firstRead := stepBegin
 		switch kind {
 		case 'M', 'X', 'S':
 			k := arg
@@ -227,17 +394,17 @@ func runCase(c Case, verbose bool) (res Result) {
 			f := requestFrame(k)
 			var r client.InFlightRequest
 			var err error
-			unanswered := len(shadow)
+			unanswered := shadow.count()
 			registeredBefore := h.InFlightLen()
 			if kind == 'S' {
-				r, err = conn.C.Send(f)
+				guard("CqlClientConnection.Send", func() { r, err = conn.C.Send(f) })
 			} else {
-				r, err = h.Enqueue(f)
+				guard("onOutgoingFrameEnqueued", func() { r, err = h.Enqueue(f) })
 			}
 			if err == nil {
 				id := int(f.Header.StreamId)
 				stepObs = []int64{1, int64(id)}
-				hd := &handle{r: r, sid: id, managed: k == 0}
+				hd := &handle{r: r, sid: id, managed: k == 0, armStep: -1}
 				handles = append(handles, hd)
 				res.Stats["accepted"]++
 				// ---- monitors (C09)
@@ -250,8 +417,9 @@ func runCase(c Case, verbose bool) (res Result) {
 				if k != 0 && id != k {
 					viol("id-mismatch", "explicit send %d accepted under id %d", k, id)
 				}
-				if prev, busy := shadow[id]; busy {
-					viol("duplicate-id", "id %d given out while request #%d with the same id is unanswered", id, indexOf(handles, prev))
+				if prev := shadow.oldest(id); prev != nil {
+					pst := client.VerifStateOf(prev.r)
+					viol("duplicate-id", "id %d given out while request #%d with the same id is unanswered (it is done=%v err=%q, its final frame has not arrived)", id, indexOf(handles, prev), pst.Done, pst.ErrClass)
 				}
 				if unanswered >= c.N {
 					viol("over-capacity", "send accepted with %d unanswered requests (limit %d)", unanswered, c.N)
@@ -259,7 +427,8 @@ func runCase(c Case, verbose bool) (res Result) {
 				if closedSeen {
 					viol("accepted-after-close", "send accepted after Close")
 				}
-				shadow[id] = hd
+				shadow.add(id, hd)
+				arm(hd, stepBegin, time.Now())
 			} else {
 				cls := client.VerifErrClass(err)
 				curCls = cls
@@ -275,9 +444,10 @@ func runCase(c Case, verbose bool) (res Result) {
 					viol("refused-but-registered", "send refused (%s) but %d requests are registered, %d before the call", cls, h.InFlightLen(), registeredBefore)
 					// keep a handle on the orphan so that the final dump shows it (the caller never gets one)
 					if orphan, ok := h.InFlightRequestAt(f.Header.StreamId); ok {
-						hd := &handle{r: orphan, sid: int(f.Header.StreamId), managed: k == 0}
+						hd := &handle{r: orphan, sid: int(f.Header.StreamId), managed: k == 0, armStep: -1}
 						handles = append(handles, hd)
-						shadow[hd.sid] = hd
+						shadow.add(hd.sid, hd)
+						arm(hd, stepBegin, time.Now())
 					}
 				}
 				// C09 says nothing forces acceptance below the limit except recycling (checked by the recycle group)
@@ -288,7 +458,8 @@ func runCase(c Case, verbose bool) (res Result) {
 			if client.VerifIsLastFrame(f) != last {
 				viol("harness", "harness frame last=%v but isLastFrame says otherwise", last)
 			}
-			target := shadow[arg]
+			// the frame answers the oldest unanswered request sent with this id
+			target := shadow.oldest(arg)
 			// the frame condition is checked on every request while there are few, else on the target and a window
 			watch := handles
 			if len(handles) > 256 {
@@ -303,10 +474,11 @@ func runCase(c Case, verbose bool) (res Result) {
 			}
 			cls := ""
 			if c.Conn {
-				conn.Route(f)
+				guard("processIncomingFrame (response frame)", func() { conn.Route(f) })
 				stepObs = []int64{3}
 			} else {
-				err := h.Deliver(f)
+				var err error
+				guard("onIncomingFrameReceived", func() { err = h.Deliver(f) })
 				cls = client.VerifErrClass(err)
 				if err == nil {
 					stepObs = []int64{3}
@@ -315,14 +487,22 @@ func runCase(c Case, verbose bool) (res Result) {
 				}
 				res.Stats["deliver:"+cls]++
 			}
-			// ---- monitors (C10): only the request registered under this id may change, by exactly this frame
+			if target != nil && target.armStep >= 0 {
+				checkSchedule(target, step, stepBegin, time.Now()) // the delivery is itself a read of the target's timer
+			}
+			// ---- monitors (C10): only the request this frame answers may change, by exactly this frame
 			for _, hd := range watch {
 				after := client.VerifStateOf(hd.r)
 				if hd == target {
 					continue
 				}
 				if after != before[hd] {
-					viol("misrouted", "frame for id %d changed request #%d (id %d): %+v -> %+v", arg, indexOf(handles, hd), hd.sid, before[hd], after)
+					if target != nil && hd.sid == arg {
+						viol("misrouted", "frame for id %d (tag %d) answers request #%d, the oldest unanswered request sent with id %d, but was handed to request #%d, sent later with the same id: %+v -> %+v",
+							arg, step, indexOf(handles, target), arg, indexOf(handles, hd), before[hd], after)
+					} else {
+						viol("misrouted", "frame for id %d changed request #%d (id %d): %+v -> %+v", arg, indexOf(handles, hd), hd.sid, before[hd], after)
+					}
 				}
 			}
 			if target == nil {
@@ -334,7 +514,14 @@ func runCase(c Case, verbose bool) (res Result) {
 				after := client.VerifStateOf(target.r)
 				bt := before[target]
 				wasDead := bt.Done
-				if !c.Conn && cls == "" {
+				if !c.Conn && cls == "" && wasDead {
+					// a request that had already failed cannot take a frame: somebody else got it (reported above) or it vanished
+					if after.Queued != bt.Queued+1 {
+						viol("delivery-count", "delivery of the frame for id %d reported, but request #%d, which it answers, was done (err %q) and did not receive it", arg, i, bt.ErrClass)
+					} else {
+						target.expect = append(target.expect, int64(step))
+					}
+				} else if !c.Conn && cls == "" {
 					target.expect = append(target.expect, int64(step))
 					if after.Queued != bt.Queued+1 {
 						viol("delivery-count", "delivery reported but request #%d has %d queued frames (was %d)", i, after.Queued, bt.Queued)
@@ -357,9 +544,13 @@ func runCase(c Case, verbose bool) (res Result) {
 						viol("delivery-failed", "delivery to live request #%d failed with %q", i, cls)
 					}
 				}
+				if !last {
+					arm(target, stepBegin, time.Now())
+				}
 				if last && !closedSeen {
 					target.answered = true
-					delete(shadow, arg)
+					target.armStep = -1
+					shadow.answer(arg)
 				}
 			}
 		case 'R':
@@ -388,12 +579,14 @@ func runCase(c Case, verbose bool) (res Result) {
 			}
 		case 'T':
 			time.Sleep(time.Duration(arg) * unit)
+			firstRead = time.Now()
+			clock += int64(arg)
 			stepObs = []int64{6}
 		case 'C':
 			if conn != nil {
-				_ = conn.Close()
+				guard("CqlClientConnection.Close", func() { _ = conn.Close() })
 			} else {
-				h.Close()
+				guard("inFlightRequestsHandler.close", func() { h.Close() })
 			}
 			closedSeen = true
 			stepObs = []int64{5}
@@ -406,6 +599,7 @@ func runCase(c Case, verbose bool) (res Result) {
 				if !hd.answered && st.ErrClass == "" {
 					viol("no-error-after-close", "after Close unanswered request #%d (id %d) has no error", i, hd.sid)
 				}
+				hd.toSeen = true
 			}
 			if n := h.InFlightLen(); n != 0 {
 				viol("registered-after-close", "%d requests still registered after Close", n)
@@ -416,7 +610,8 @@ func runCase(c Case, verbose bool) (res Result) {
 			for _, hd := range handles {
 				stBefore = append(stBefore, client.VerifStateOf(hd.r))
 			}
-			conn.Route(eventFrame(int64(step)))
+			ev := eventFrame(int64(step))
+			guard("processIncomingFrame (EVENT frame)", func() { conn.Route(ev) })
 			q := int64(0)
 			if conn.EventsQueued() == before+1 {
 				q = 1
@@ -462,7 +657,21 @@ func runCase(c Case, verbose bool) (res Result) {
 				viol("conservation", "conservation broken: %d distinct ids in pool + managed in-flight, want %d", len(seen), c.N)
 			}
 		}
+		if timing {
+			judgeTimeouts()
+			stepEnd := time.Now()
+			for _, l := range shadow {
+				for _, hd := range l {
+					if hd.armStep >= 0 && hd.armStep < step {
+						checkSchedule(hd, step, firstRead, stepEnd)
+					}
+				}
+			}
+		}
 	}
+	step = len(ops)
+	atomic.StoreInt32(progStep, int32(step))
+	dumpBegin := time.Now()
 	// ---- final state, same layout as Inflight.state_code
 	pool := h.Pool()
 	keys := h.InFlightKeys()
@@ -522,7 +731,7 @@ func runCase(c Case, verbose bool) (res Result) {
 		}
 		// ---- monitors (C10 / C16): exactly the expected pages, in order; closed channel <=> done
 		if !eqI(hd.got, hd.expect) {
-			viol("wrong-pages", "request #%d (id %d) received %v, the frames sent to it while registered were %v", i, hd.sid, hd.got, hd.expect)
+			viol("wrong-pages", "request #%d (id %d) received %v, the frames that answer it (sent while it was the oldest unanswered request with that id) were %v", i, hd.sid, hd.got, hd.expect)
 		}
 		if (chClosed == 1) != st.Done {
 			viol("done-vs-closed", "request #%d: channel closed=%d but IsDone()=%v", i, chClosed, st.Done)
@@ -532,6 +741,17 @@ func runCase(c Case, verbose bool) (res Result) {
 		}
 		if !st.Done && st.ErrClass != "" {
 			viol("err-without-done", "request #%d: Err() set on a request that is not done", i)
+		}
+	}
+	if timing {
+		judgeTimeouts()
+		dumpEnd := time.Now()
+		for _, l := range shadow {
+			for _, hd := range l {
+				if hd.armStep >= 0 {
+					checkSchedule(hd, step, dumpBegin, dumpEnd)
+				}
+			}
 		}
 	}
 	res.Obs = obs
